@@ -64,9 +64,15 @@ class RegexCompiler:
 
         return self.bytecode
 
+    # Counted quantifiers are unrolled, so a{100000000} or nested counts would
+    # otherwise compile (nearly) forever; larger programs are refused.
+    MAX_PROGRAM_SIZE = 500_000
+
     def _emit(self, opcode: Op, *args) -> int:
         """Emit an instruction and return its index."""
         idx = len(self.bytecode)
+        if idx >= self.MAX_PROGRAM_SIZE:
+            raise RegExpError("Regular expression too large")
         self.bytecode.append((opcode, *args))
         return idx
 
